@@ -1,0 +1,8 @@
+//go:build !verif
+
+// Package verifhook provides named schedule points for the verification
+// harness. Without the `verif` build tag they do nothing.
+package verifhook
+
+// Yield is a no-op unless the module is built with `-tags verif`.
+func Yield(point string, subject any) {}
